@@ -1281,11 +1281,11 @@ class Interp:
                 kx = _h(a[0])
                 return b.get(kx, a[1] if len(a) > 1 else None)
             if at == "keys":
-                return KeysView(b.keys())
+                return KeysView(_unh(k) for k in b.keys() if k != "__default_factory__")
             if at == "values":
                 return list(b.values())
             if at == "items":
-                return [(kk, vv) for kk, vv in b.items()]
+                return [(_unh(kk), vv) for kk, vv in b.items() if kk != "__default_factory__"]
             if at == "update":
                 b.update(a[0]); return None
             if at == "pop":
@@ -1500,7 +1500,7 @@ class Interp:
         if isinstance(v, (frozenset, set)):
             return sorted(v, key=repr)
         if isinstance(v, dict):
-            return list(v.keys())
+            return [_unh(k) for k in v.keys() if k != "__default_factory__"]
         if isinstance(v, str):
             return list(v)
         if isinstance(v, range):
@@ -1940,8 +1940,21 @@ def _h(x):
         v = simplify_num(x)
         return v if not isinstance(v, RF) else repr(v)
     if isinstance(x, Ext) and hasattr(x, "sym_hashkey"):
-        return x.sym_hashkey()
+        k = x.sym_hashkey()
+        _UNHASH.setdefault(k, x)
+        return k
     return x
+
+
+_UNHASH: Dict[Any, Any] = {}
+
+
+def _unh(k):
+    """The value a dictionary key stands for (keys of extension values are stored by their value identity)."""
+    try:
+        return _UNHASH.get(k, k)
+    except TypeError:
+        return k
 
 
 def _has_sym(x):
